@@ -252,7 +252,9 @@ type persLogger struct {
 
 func buildPers(cfg int) *persLogger {
 	p := &persLogger{out: &sink{}, eo: &sink{}}
-	p.l = cfgs[cfg].build(p.out, p.eo).With(zap.String("svc", "api"), zap.Namespace("req"), zap.String("id", "42"))
+	// the context holds a reflection-encoded value (the encoder keeps a scratch buffer for it) and
+	// ends inside an open namespace
+	p.l = cfgs[cfg].build(p.out, p.eo).With(zap.String("svc", "api"), zap.Reflect("settings", reflected{7, "ctx", []float64{0.5}, map[string]string{"env": "prod"}}), zap.Namespace("req"), zap.String("id", "42"))
 	return p
 }
 
